@@ -441,3 +441,30 @@ Theorem deriving_frame : forall w o d, deriving o = true -> d < length (wdocs w)
 Proof.
   intros w o d E L. apply step_frame; [exact L|]. destruct o; try discriminate E; cbn [target]; discriminate.
 Qed.
+
+(* ---- export calls anywhere in a history change nothing that comes after: the world a history builds is the world the
+   history builds with its export calls struck out *)
+Definition strip_exports (ops : list op) : list op := filter (fun o => negb (exporter o)) ops.
+
+Lemma fold_strip : forall ops w,
+  fold_left (fun w o => fst (step w o)) ops w = fold_left (fun w o => fst (step w o)) (strip_exports ops) w.
+Proof.
+  induction ops as [|o ops IH]; intros w; [reflexivity|].
+  cbn [fold_left strip_exports filter]. fold (strip_exports ops).
+  destruct (exporter o) eqn:E; cbn [negb].
+  - rewrite (exporter_pure w o E). apply IH.
+  - cbn [fold_left]. apply IH.
+Qed.
+
+Theorem wrun_strip : forall ft ops, wrun ft ops = wrun ft (strip_exports ops).
+Proof. intros ft ops. unfold wrun. apply fold_strip. Qed.
+
+(* two histories that make the same calls once their export calls are struck out — one exported after every call, say,
+   the other never — build the same world, so every later call (export or not) answers the same on both *)
+Theorem same_calls_same_world : forall ft ops1 ops2,
+  strip_exports ops1 = strip_exports ops2 -> wrun ft ops1 = wrun ft ops2.
+Proof. intros ft ops1 ops2 H. rewrite (wrun_strip ft ops1), (wrun_strip ft ops2), H. reflexivity. Qed.
+
+Theorem same_calls_same_exports : forall ft ops1 ops2 o,
+  strip_exports ops1 = strip_exports ops2 -> step (wrun ft ops1) o = step (wrun ft ops2) o.
+Proof. intros ft ops1 ops2 o H. rewrite (same_calls_same_world ft ops1 ops2 H). reflexivity. Qed.
